@@ -93,8 +93,9 @@ def main():
     if res.get('valid_seed'):
         dst = os.path.join(VERIF, 'seeded', name)
         os.makedirs(dst, exist_ok=True)
-        shutil.copy(os.path.join(src, 'patch.diff'), dst)
-        shutil.copy(os.path.join(src, 'demo.py'), dst)
+        if os.path.realpath(src) != os.path.realpath(dst):
+            shutil.copy(os.path.join(src, 'patch.diff'), dst)
+            shutil.copy(os.path.join(src, 'demo.py'), dst)
         meta = {}
         try:
             meta = json.load(open(os.path.join(src, 'meta.json')))
@@ -107,6 +108,7 @@ def main():
                     res['test_suite'] = dict(prev, note='from the previous confirmation run of the same patch')
             except Exception:  # noqa
                 pass
+        meta.pop('confirmed', None)
         meta.update({'property': pid, 'confirmed': res})
         json.dump(meta, open(os.path.join(dst, 'meta.json'), 'w'), indent=1, default=str)
     print(json.dumps({'name': name, 'valid_seed': res.get('valid_seed'), 'demo_without': res.get('demo_without_patch', {}).get('rc'),
